@@ -109,7 +109,7 @@ var driverMethodNames = map[string]bool{"Prepare": true, "PrepareContext": true,
 	"OpenConnector": true, "NumInput": true, "IsValid": true, "CheckNamedValue": true, "Driver": true}
 
 func checkC16(r *core.Run) {
-	r.Explain = "Decided statically: (C16.notraffic) on every call chain from a database/sql/driver entry point of the proxy types to a remoting sink (BranchRegister, BranchReport, LockQuery, SendSyncRequest) at least one call site is control-dependent on an accepted global-transaction predicate; (C16.forward) pass-through methods hand the target driver their own ctx / query / args (or the repo's value<->named conversion of them), never a fresh context, and use the executor's result only on its nil-error edge; (C16.noextra) outside a global transaction no failure source of the proxy's own (SQL parser, table-meta lookup) lies on the path of a statement; (C16.execctx) every ExecContext literal handed to an executor sets the non-boolean fields the live AT executors read. NOT decided: result equivalence of arbitrary statement programs (differential behaviour)."
+	r.Explain = "Decided statically: (C16.notraffic) on every call chain from a database/sql/driver entry point of the proxy types to a remoting sink (BranchRegister, BranchReport, LockQuery, SendSyncRequest) at least one call site is control-dependent on an accepted global-transaction predicate; (C16.forward) pass-through methods hand the target driver their own ctx / query / args (or the repo's value<->named conversion of them), never a fresh context, and use the executor's result only on its nil-error edge; (C16.noextra) outside a global transaction no failure source of the proxy's own (SQL parser, table-meta lookup) lies on the path of a statement; (C16.execctx) every ExecContext literal handed to an executor sets the non-boolean fields the live AT executors read. (C16.dispatch) the AT executor dispatch constructs an executor that issues statements of its own (image queries, lock queries) only on paths where tm.IsGlobalTx holds for the context of the current call — state kept in a TransactionContext is not accepted there, because a prepared statement keeps the context it was prepared with. NOT decided: result equivalence of arbitrary statement programs (differential behaviour)."
 	r.Trusted = []string{"go/types, go/cfg", "CHA over repository types; database/sql/driver interfaces are the wrapped driver"}
 	w := r.W
 	pts := proxyTypes(w)
@@ -337,6 +337,8 @@ func checkC16(r *core.Run) {
 	r.Sites++
 	r.Check(nStmt >= 10, "C16.noextra", "statement entry points examined", "", itoa(nStmt)+" Exec/Query/Prepare entry points searched for unguarded parser / metadata calls", "fewer statement entry points than confirmed by hand")
 	c16ExecCtx(r)
+	c16Dispatch(r)
+	r.Floor("C16.dispatch", 5)
 	r.Floor("C16.notraffic", 25)
 	r.Floor("C16.forward", 20)
 	r.Floor("C16.noextra", 1)
@@ -533,5 +535,66 @@ func c16ExecCtx(r *core.Run) {
 	}
 	if n == 0 {
 		r.Bad("C16.execctx", "ExecContext literals", "", "no ExecContext literal found in the proxy")
+	}
+}
+
+// c16Dispatch: image-building executors are chosen only under tm.IsGlobalTx(ctx) of the current call.
+func c16Dispatch(r *core.Run) {
+	w := r.W
+	dispatch, live := liveATExecutors(w)
+	if dispatch == nil {
+		r.Anchor("C16.dispatch", nil, "AT executor dispatch (SQLExecutor.ExecWithNamedValue in exec/at)")
+		return
+	}
+	r.Fn(dispatch)
+	// executors that talk to the database on their own
+	own := map[*types.Named]bool{}
+	for _, t := range live {
+		ec := methodInfo(w, t, "ExecContext")
+		if ec == nil {
+			continue
+		}
+		fs := append(reachFrom(w, []*core.FuncInfo{ec}, pExecAT), ec)
+		for _, f := range fs {
+			for _, cs := range w.Calls(f) {
+				if cs.Static != nil && cs.Static.Pkg() != nil && cs.Static.Pkg().Path() == "database/sql/driver" {
+					own[t] = true
+				}
+				if cs.Static != nil && (isBranchRegister(w, cs.Static) || isLockQuery(w, cs.Static)) {
+					own[t] = true
+				}
+			}
+		}
+	}
+	var ctxParam types.Object
+	for _, p := range paramObjs(dispatch) {
+		if p.Type().String() == "context.Context" {
+			ctxParam = p
+		}
+	}
+	sp := &flow.Spec{W: w, Depth: 0, Split: []flow.Tag{"true:isglobal", "false:isglobal"},
+		Classify: func(pkg *packages.Package, call *ast.CallExpr, callee *types.Func) []flow.Tag {
+			if core.IsPkgFunc(callee, pTM, "IsGlobalTx") && len(call.Args) == 1 && isObj(pkg.TypesInfo, call.Args[0], ctxParam) {
+				return []flow.Tag{"isglobal"}
+			}
+			if fi := w.Info(callee); fi != nil && fi.Pkg.PkgPath == pExecAT {
+				for _, t := range returnedTypes(fi) {
+					if own[t] {
+						return []flow.Tag{"ctor:" + t.Obj().Name()}
+					}
+				}
+			}
+			return nil
+		}}
+	res := sp.Analyze(dispatch)
+	for _, cp := range res.Calls {
+		for _, t := range cp.Tags {
+			if !strings.HasPrefix(t, "ctor:") {
+				continue
+			}
+			r.Sites++
+			r.Check(cp.Before.Has("true:isglobal"), "C16.dispatch", core.ShortKey(dispatch.Obj)+" -> "+strings.TrimPrefix(t, "ctor:")+" only inside a global transaction", w.Pos(cp.Call.Pos()),
+				"constructed under tm.IsGlobalTx(ctx) of this call", "an executor that issues its own image / lock statements can be chosen although tm.IsGlobalTx(ctx) is not known to hold for this call (a TransactionContext captured by a prepared statement may be stale): outside a global transaction the proxy then sends statements the bare driver would not")
+		}
 	}
 }
